@@ -98,7 +98,7 @@ struct CmdOptions
   std::string optionStr;
   int option = OPTION_DEFAULT;
   maxint_t x = -1;
-  int64_t a = -1;
+  maxint_t a = -1;
   bool time = false;
 
   void setMainOption(OptionID optionID, const std::string& optStr);
